@@ -11,6 +11,7 @@ mod scen;
 mod fam_passport;
 mod fam_rd;
 mod fam_directed;
+mod fam_honest;
 
 fn arg<T: std::str::FromStr>(a: &[String], i: usize, d: T) -> T { a.get(i).and_then(|s| s.parse().ok()).unwrap_or(d) }
 
@@ -25,6 +26,7 @@ fn main() {
         Some("bank-passport") => scen::run_family(arg(&a, 2, 0), arg(&a, 3, 16), arg(&a, 4, 60), fam_passport::scenario),
         Some("bank-rd") => scen::run_family(arg(&a, 2, 0), arg(&a, 3, 16), arg(&a, 4, 120), fam_rd::scenario),
         Some("bank-directed") => scen::run_family(arg(&a, 2, 0), arg(&a, 3, 4), arg(&a, 4, 0), fam_directed::scenario),
+        Some("bank-honest") => scen::run_family(arg(&a, 2, 0), arg(&a, 3, 16), arg(&a, 4, 0), fam_honest::scenario),
         Some("dump-constants") => constants::main(),
         _ => { eprintln!("usage: dzh <family> ..."); std::process::exit(2); }
     }
